@@ -114,9 +114,12 @@ DoCtorLike(S, a) == LET ox == S.objs[a.x]  ot == S.objs[a.t]
                         st == OrSt(FoldQ(qs), [o |-> FALSE, u |-> FALSE, i |-> ox.st.i])
                     IN Put(Forget(S, a.y), a.y, [fmt |-> ot.fmt, codes |-> CodesOf(qs), cfg |-> ot.cfg, st |-> st])
 \* y = Fxp(values, like=t)  /  Fxp.template = t; y = Fxp(values): the template's format and a COPY of its Config, fresh status
+\* via "config": Fxp(values, sizes of t, config=t.config, overflow=<the other mode>) -- t's Config OBJECT is passed together with an
+\* overriding keyword: the new object gets its own copy with the override, t keeps its modes
 DoNewLike(S, a) == LET ot == S.objs[a.t]
-                       qs == [j \in DOMAIN a.ks |-> Q(a.ks[j], ot.fmt, ot.cfg)]
-                   IN Put(Forget(S, a.y), a.y, [fmt |-> ot.fmt, codes |-> CodesOf(qs), cfg |-> ot.cfg, st |-> FoldQ(qs)])
+                       cf == IF a.via = "config" THEN [ot.cfg EXCEPT !.ovf = IF ot.cfg.ovf = "saturate" THEN "wrap" ELSE "saturate"] ELSE ot.cfg
+                       qs == [j \in DOMAIN a.ks |-> Q(a.ks[j], ot.fmt, cf)]
+                   IN Put(Forget(S, a.y), a.y, [fmt |-> ot.fmt, codes |-> CodesOf(qs), cfg |-> cf, st |-> FoldQ(qs)])
 \* y = x.like(t): a deep copy of the template (status included) that then stores x's value
 DoLike(S, a) == LET ox == S.objs[a.x]  ot == S.objs[a.t]
                     qs == ConvAll(ox.codes, ox.fmt, ot.fmt, ot.cfg)
@@ -232,7 +235,7 @@ Enabled(S) ==
           x \in { z \in Live(S) : LenOf(S, z) = 2 } } ELSE {},
      IF "CtorLike" \in Acts THEN { r \in { [act |-> "CtorLike", y |-> y, x |-> x, t |-> t] : y \in { z \in Obj : Free(S, z) }, x \in Live(S), t \in Live(S) } : r.x # r.t } ELSE {},
      IF "NewLike" \in Acts THEN UNION { { [act |-> "NewLike", y |-> y, t |-> t, via |-> v, ks |-> <<k1, k2>>] :
-          y \in { z \in Obj : Free(S, z) }, v \in {"like", "template"}, k1 \in Grid(S.objs[t].fmt), k2 \in {4} } : t \in Live(S) } ELSE {},
+          y \in { z \in Obj : Free(S, z) }, v \in {"like", "template", "config"}, k1 \in Grid(S.objs[t].fmt), k2 \in {4} } : t \in Live(S) } ELSE {},
      IF "Like" \in Acts THEN { r \in { [act |-> "Like", y |-> y, x |-> x, t |-> t] : y \in { z \in Obj : Free(S, z) }, x \in Live(S), t \in Live(S) } : r.x # r.t } ELSE {},
      IF "LikeShallow" \in Acts THEN { r \in { [act |-> "LikeShallow", y |-> y, x |-> x, t |-> t] : y \in { z \in Obj : Free(S, z) }, x \in Live(S), t \in Live(S) } : r.x # r.t } ELSE {},
      IF "CopyShallow" \in Acts THEN { [act |-> "CopyShallow", y |-> y, x |-> x] : y \in { z \in Obj : Free(S, z) }, x \in Live(S) } ELSE {},
